@@ -69,6 +69,26 @@ def autoresolve_json_items(r, quick):
                                                 mk(x, {'p': 'base', 'q': 'remote-edit'}), 'autoresolve-json-sym', T))
     return out
 
+def union_line_items(r, quick):
+    """a multi-line string whose lines the two sides edit IN PLACE (each side one line, different lines -- every ordered
+    pair of line numbers, line 0 included), governed by the side-symmetric settling strategy 'union' (whole-diff
+    local-then-remote, one decision carrying a patch of line i and a patch of line j): same verdict and same merged text in
+    both role orders; the string sits at the root object, one level down, or in a list item"""
+    out = []
+    n = 4
+    lines = ['alpha line %d of the text\n' % i for i in range(n)]
+    text = ''.join(lines)
+    def edit(i, w): ls = list(lines); ls[i] = ls[i].rstrip('\n') + ' ' + w + '\n'; return ''.join(ls)
+    shapes = [('/s', lambda t: {'s': t, 'k': 1}), ('/w/s', lambda t: {'w': {'s': t}, 'k': 1}), ('/l/*/s', lambda t: {'l': [{'s': t}]})]
+    for path, mk in shapes:
+        st = {'table': {path: 'union'}, 'transients': []}
+        T = (lambda st: lambda b_, l_, r_: jtask(b_, l_, r_, st))(st)
+        for i in range(n):
+            for j in range(n):
+                if i == j: continue
+                out.append(sym_item(mk(text), mk(edit(i, 'mine')), mk(edit(j, 'theirs')), 'union-lines-sym', T))
+    return out
+
 def _strip_ids(nb):
     for c in nb['cells']: c.pop('id', None)
 
@@ -215,6 +235,7 @@ def gen_items(chk, tier, cli):
     mi, dropped = minor_items(r, quick)
     items += mi
     chk.cov['minor_triples_dropped_invalid'] = dropped
+    items += union_line_items(r, quick)
     return items
 
 def judge_item(it, results):
